@@ -821,3 +821,49 @@ SPECS["C06"] = dict(
     trusted_base=["std::io::Read::chain semantics", "SplitIndep prod (discharged by the C01/C07 decoder refinement theorem)"],
     assumptions=["64-bit usize; limit_offset None = u64::MAX is modelled as 'never'; streams shorter than 2^64 bytes"],
 )
+
+# ---- track glue: the three Layer-B vocabularies connected (Props/C05G), C09's in-capacity hypothesis discharged (Props/C09G)
+SPECS["C05"]["lean_modules"] += ["Woodpile.Props.C05G"]
+SPECS["C05"]["theorems"] += [
+    "Woodpile.Props.C05G.op_is_wstep",
+    "Woodpile.Props.C05G.push_is_wrun",
+    "Woodpile.Props.C05G.xop_is_wstep",
+    "Woodpile.Props.C05G.op_run_worldInv",
+    "Woodpile.Props.C05G.op_run_arenaInv",
+    "Woodpile.Props.C05G.xop_run_arenaInv",
+    "Woodpile.Props.C05G.enc_run_arenaInv",
+    "Woodpile.Props.C05G.good_exposed_live",
+    "Woodpile.Props.C05G.good_below_bump",
+]
+SPECS["C05"]["level_text"] += (' Props/C05G (track glue): the step vocabulary has three more ops (lend, pushAt, pushBorrowedAt: push of a SUB-slice '
+    'of a known caller buffer; same model functions) so that every step of the single-iovec vocabulary of C03/C04 (Op) and of the codec-over-iovec '
+    'vocabulary (XOp) IS a run of one or two steps of this vocabulary on the same world (op_is_wstep, xop_is_wstep); WorldInv and ArenaInv therefore '
+    'hold in every state reachable by Op / XOp histories and in every state of an HCOBS encoder run (op_run_worldInv, op_run_arenaInv, '
+    'xop_run_arenaInv, enc_run_arenaInv), and exposed_live / below_bump are restated from the two invariants.')
+SPECS["C09"]["lean_modules"] += ["Woodpile.Props.C09G"]
+SPECS["C09"]["theorems"] += [
+    "Woodpile.Props.C09G.enc_slices_in_cap_partial",
+    "Woodpile.Props.C09G.enc_lag_le_partial",
+    "Woodpile.Props.C09G.enc_lag_le_prod_partial",
+]
+SPECS["C09"]["level_text"] += (' Props/C09G (track glue): the in-capacity hypothesis of C09W.enc_lag_le_partial is DISCHARGED: every step of an encoder '
+    'run preserves WorldInv/ArenaInv, every request of the encoder is <= max(maxInit,maxSub) <= 64008 < 2^20 so (extracted production tuning) every chunk '
+    'its arena allocates has capacity <= 2^20, and ArenaInv puts every owned slice inside its chunk: lag < 2^20 + 64008 + 2 for every run on the structural '
+    'model, any policy constants, any calls, any drain schedule (enc_lag_le_prod_partial; `_partial` = borrow/copy input methods only).')
+SPECS["C10"]["lean_modules"] += ["Woodpile.Props.C10G"]
+SPECS["C10"]["theorems"] += [
+    "Woodpile.Props.C10G.streaming_caps_ghost",
+    "Woodpile.Props.C10G.streaming_footprint_ghost",
+    "Woodpile.Props.C10G.streaming_footprint_ghost_prod",
+]
+SPECS["C10"]["level_text"] += (' Props/C10G (track glue): the capacities of streaming_footprint are tied to the allocation-time capacity ghost of '
+    'GReach (C05): along the streaming pattern the ghost itself is <= S on every live chunk and is the recorded capacity of the current cache '
+    '(streaming_footprint_ghost).')
+SPECS["C05"]["theorems"] += [
+    "Woodpile.Props.C05G.op_run_is_wrun",
+    "Woodpile.Props.C05G.enc_prefix_is_wrun",
+    "Woodpile.Props.C05G.enc_run_is_wrun",
+]
+SPECS["C05"]["level_text"] += (' Run level: a whole Op history (whose backfill tokens are its own) and a whole HCOBS encoder run (no side condition) is '
+    'ONE history of this vocabulary on the world whose handle table carries the tokens (op_run_is_wrun, enc_prefix_is_wrun, enc_run_is_wrun), so those '
+    'worlds are Reachable exactly as C05 / C10 / C20 quantify.')
